@@ -54,6 +54,10 @@ ArchStep ==
     /\ LET j == TraceLog[l]  a == ArchOf(j) IN
        /\ IF TreeClosed(a.modules) /\ \A e \in a.imports : e[1] \in a.modules /\ e[2] \in a.modules
           THEN TRUE ELSE Report("MACHINERY", "arch-not-wellformed", j.a)
+       \* the architecture was constructed from an explicit module list and import list (the way the repository's
+       \* tests build graphs): what the rules are judged on must be exactly that tree and that import relation
+       /\ IF a = ArchOf(j.given) THEN TRUE
+          ELSE Report("C01", "architecture-differs-from-the-modules-and-imports-it-was-built-from", j.a)
        \* "first" marks the first event of an episode: episodes are independent sessions, and the
        \* observation variables of the previous one are dropped (keeps states small, validation linear)
        /\ archs' = IF j.first THEN (j.a :> a) ELSE (j.a :> a) @@ archs
